@@ -277,6 +277,28 @@ class PropertyRun:
         stand-in: a failing input is a violation with a replayed input; nothing found leaves the function undecided."""
         done = set()
         for c in self.out_of_subset:
+            # value-level functions with an executable oracle of their contract: the bounded concrete search on the REAL function
+            if getattr(c, "oracle", None) and not c.logical and c.qn not in self._searched:
+                try:
+                    ex = Exec(self.repo, self.reg, self.pid)
+                    n = 400 if self.tier == "quick" else 4000
+                    f2, d2, i2, ev = replay_mod.concrete_search(self, c, ex, n, self.seed)
+                except Exception as e:  # noqa
+                    f2, d2, i2, ev = False, "bounded search crashed: %r" % (e,), None, 0
+                self._searched[c.qn] = (f2, d2, i2, ev)
+                name = "%s/%s/oracle:%s" % (self.pid, c.qn.split(".")[-1], c.oracle)
+                self.extra_checks.append(dict(name="%s/bounded:oracle[%s]" % (self.pid, c.oracle), kind="bounded", status="violation" if f2 else "ok" if ev else "undecided",
+                                              bound="contract oracle of %s on generated inputs (pools of the contract), run as a stand-in because the function left the verified subset" % c.qn,
+                                              evaluations=ev, exhaustive=False, detail=d2))
+                if f2:
+                    rdir = os.path.join(ROOT, "replays", self.pid)
+                    os.makedirs(rdir, exist_ok=True)
+                    path = os.path.join(rdir, re.sub(r"[^A-Za-z0-9_.\-]+", "_", name.split("/", 1)[1]) + ".json")
+                    with open(path, "w") as f:
+                        json.dump(dict(property=self.pid, obligation=name, function=c.qn, why="the function could not be executed symbolically on this tree (outside the "
+                                       "verified subset); the executable oracle of its contract fails on a generated input of the real function",
+                                       replay=dict(confirmed=True, detail=d2, inputs=i2)), f, indent=1, default=str)
+                    self.violations.append(dict(obligation=name, replay=path, confirmed=True, detail=d2))
             if not c.replay:
                 continue
             short = c.qn.split(".")[-1]
